@@ -46,6 +46,20 @@ def spellings(U, letters, mode):
 def do_source(rec, hub, U, all_letters, la, regimes, rng, tier):
     fd = hub.fd
     sx = gen.shape_of(U, la)
+    if len(la) >= 2:
+        # one array OBJECT reduced again after its values were written directly (x.values[...] = ...): every reduction follows the
+        # values the array holds when it is called
+        xo = fd.FlodymArray(dims=gen.dimset(fd, U, la), values=gen.values_one("dyadic", rng, sx))
+        for rnd in range(3):
+            for f in (lambda: xo.sum_to(la[:1]), lambda: xo.sum_over(la[:1]), lambda: xo.sum_values_to(la[-1:]), lambda: xo.get_shares_over(la[:1]), lambda: xo.cumsum(la[0]), lambda: xo.sum_values()):
+                try:
+                    f()
+                except Exception:
+                    pass
+            if rnd == 0:
+                xo.values[...] = np.abs(gen.values_one("dyadic", rng, sx)) + 1.0
+            else:
+                xo.values[tuple(0 for _ in sx)] += 16.0
     for reg in regimes:
         x0 = fd.FlodymArray(dims=gen.dimset(fd, U, la), values=gen.values_one(reg, rng, sx, layout=True))
 
